@@ -40,6 +40,8 @@ StateChecks(r) ==
     crash_budget |-> [a |-> sys.max_crashes > 0, c |-> NCrashed(s) <= sys.max_crashes],
     \* the network value is canonical: a flow that holds no message is not kept (it cannot influence anything, but it
     \* takes part in Eq/Hash of the real state: a state with such a flow is split from the one without)
+    \* ... and so are the pending random choices: a key without alternatives is not kept
+    canonical_choices |-> [a |-> "dead_choices" \in DOMAIN r, c |-> "dead_choices" \in DOMAIN r => r.dead_choices = 0],
     canonical_net |-> [a |-> s.net.kind = "ordered", c |-> "empty_flows" \in DOMAIN r => r.empty_flows = 0],
     \* C10: representative() = image under the stable sorting permutation of the actor states.
     \* Envelopes addressed to non-existent actors are outside the permutation's domain; the code is
